@@ -45,3 +45,15 @@ Definition flat_array (d : arr_decl) (c : Z) : bool :=
   else occ_ok (ad_wmin d) (ad_wmax d) c.
 (** the logical request a flat document with c pairs denotes *)
 Definition flat_request (c : Z) : option Z := if 0 <? c then Some c else None.
+
+(** ---- element members and attribute members of one element ----
+    complex_from_element counts, per declared member, the nodes of the member's OWN kind: child elements
+    for an element member, attributes for an XmlAttribute member.  A node of the other kind that merely
+    shares the name is not an occurrence. *)
+Definition mdecl := (text * bool * Z * ext)%type.          (* name, is an XmlAttribute, min_occurs, max_occurs *)
+Definition xml_member_freq (decls : list mdecl) (children attrs : list text) : bool :=
+  forallb (fun d : mdecl => match d with (k, is_attr, mn, mx) =>
+                      occ_ok mn mx (count_name k (if (is_attr : bool) then attrs else children)) end) decls.
+Definition of_kind (attr : bool) (decls : list mdecl) : list occ_decl :=
+  map (fun d : mdecl => match d with (k, _, mn, mx) => (k, mn, mx) end)
+      (filter (fun d : mdecl => match d with (_, a, _, _) => if attr then a else negb a end) decls).
